@@ -136,6 +136,9 @@ def gen(tier, seed):
         add("inflate feed grid", "inffeed\t%d" % n)
     for _ in range(10 if not full else 100):
         add("inflate feed random", "inffeed\t%d" % rnd.randint(MAXZ - 2000, MAXZ + 2000))
+    # octets BEHIND the end of the deflate stream in the same feed: refused, and promptly (the inflater makes no progress there)
+    for n, t in ((5, 1), (100, 1), (100, 8), (5000, 3), (70000, 1), (200, 4096)):
+        add("inflate feed with trailing octets", "inffeed\t%d\t%d" % (n, t))
 
     # --- KEYMAX sites
     klens = [0, 1, 15, 16, 23, 24, 31, 32, 47, 48, 63, 64, 1016, 1023, 1024, 1025, 1032, 1039, 1040, 1041, 1048, 2048, 4096, 65536]
@@ -279,6 +282,12 @@ def oracle(case, out):
         return None
     if cmd == "inffeed":
         n = int(f[1])
+        if len(f) > 2 and int(f[2]) > 0:
+            if d["final"] != "R":
+                return ("inflate-trailing-octets-accepted", "a complete deflate stream of %d octets followed by %s more octets was accepted by the inflater (%s)" % (n, f[2], out))
+            if slow(d):
+                return ("slow-refusal:inffeed", "refusal took %s us" % d.get("us"))
+            return None
         if n > MAXZ:
             if d["final"] != "R" or d["out"] != "0":
                 return ("inflate-block-limit-not-enforced", "one feed of %d bytes was accepted by the inflater (%s)" % (n, out))
